@@ -40,6 +40,10 @@ CLAIMED = {
             'exploration: held on ~3x10^4 interior points per quick run covering every listed model x feature type pair (listed in the evidence), both coordinate systems, sentinels and model ranges narrower/wider than the feature; 1e-12 relative (1e-9 for series and distance-encoded values)',
             'reference formulas are the checker\'s reading of the documentation (half-space/plate series, Chapman, Gaussian with r^2 = ellipse fraction, tanh profile of the smooth models); slab/fault linear sentinels and grains of unlisted compositions in line features are not judged',
             'DESIGN.md section 4, C05'),
+    'C11': ('runtime monitoring: invariant monitors on Objects::Surface called directly (listed value at nodes, nodal bounds, affine exactness) and world-level probes of area features whose min/max depth is given at points (uniform composition present/absent just above/below the expected depth), on the ASan+UBSan build',
+            'exploration: held on ~1.6x10^4 probes per quick run (hundreds of triangulations incl. collinear triples, spherical alias, corners with a zero coordinate, base-value and default corners)',
+            'interior interpolated values are only bounded (the triangulation is left open by the property); 1e-10 relative for barycentric rounding; two input classes are known findings (approx(0,0), DBL_MAX default corners)',
+            'DESIGN.md section 4, C11'),
 }
 
 PENDING_REASON = 'check not built yet (work in progress; see DESIGN.md section 9)'
